@@ -155,6 +155,12 @@ def run(lean_dir, repo):
         out.append("#eval IO.println (toString ([%s] : List %s))" % (", ".join(calls), ty))
     f = lean_dir / ".gen_selftest.lean"
     f.write_text("\n".join(out) + "\n")
+    # the generated modules must be compiled before they can be evaluated
+    gmods = ["Zc.Gen." + q.stem for q in sorted(gen_dir.glob("*.lean"))]
+    b = subprocess.run(["lake", "build"] + gmods, cwd=lean_dir, stdout=subprocess.PIPE, stderr=subprocess.STDOUT, timeout=900)
+    if b.returncode != 0:
+        f.unlink(missing_ok=True)
+        return False, "generated Lean does not compile: " + b.stdout.decode()[-400:], total
     p = subprocess.run(["lake", "env", "lean", f.name], cwd=lean_dir, stdout=subprocess.PIPE, stderr=subprocess.STDOUT, timeout=900)
     text = p.stdout.decode()
     f.unlink(missing_ok=True)
